@@ -103,7 +103,9 @@ async def do_step(inv, step, loop, peer=None):
         await asyncio.sleep(0)
         return {}
     if op == "api":
-        r = await getattr(inv, step[1])(*step[2:])
+        r = getattr(inv, step[1])(*step[2:])
+        if asyncio.iscoroutine(r):
+            r = await r
         return {"value": repr(r)[:200]}
     raise ValueError(step)
 
